@@ -7,6 +7,7 @@ import (
 	"encoding/json"
 	"errors"
 	"fmt"
+	"strings"
 	"testing"
 	"testing/synctest"
 
@@ -186,6 +187,31 @@ func c19Check(t *testing.T, c c19Case) (out [][2]string) {
 					bad("C19:not-closed", "subscriber %d channel still open after Watch returned (watch error: %t)", i, c.Err)
 				}
 			}
+			// A Watcher is used once: a later Subscribe + Watch on the same value is refused
+			// with the documented panic. Should a version allow it, the first generation's
+			// channels (closed once already) must not be touched again, and the new
+			// subscriber is served and closed like any other.
+			late := w.Subscribe("eth0", LinkDown)
+			func() {
+				defer func() { pv = recover() }()
+				err = w.Watch(context.Background())
+			}()
+			switch {
+			case pv != nil && strings.Contains(fmt.Sprint(pv), "multiple calls to Watcher.Watch"):
+			case pv != nil:
+				bad("C19:second-watch-panic", "a second Watch on the same Watcher panicked: %v (channels are closed exactly once)", pv)
+			default:
+				var want []Change
+				for _, ch := range c.Seq {
+					if Change(ch)&LinkDown != 0 {
+						want = append(want, Change(ch))
+					}
+				}
+				got, closed := drain(late)
+				if !closed || fmt.Sprint(got) != fmt.Sprint(want) {
+					bad("C19:second-watch", "second Watch returned %v: late subscriber got %v (want %v), closed=%t", err, got, want, closed)
+				}
+			}
 		}
 	})
 	return out
@@ -194,7 +220,7 @@ func c19Check(t *testing.T, c c19Case) (out [][2]string) {
 func TestVerifC19(t *testing.T) {
 	r := ev.Begin("C19", "enum")
 	defer r.End(t)
-	r.Rule = "cases = all 127 masks x 7 changes x {same, other} interface; all change sequences of length<=3 over the 7 changes for 3 subscriber mask sets (incl. two subscribers sharing one mask); 0..12 undrained events with a slow and a drained subscriber on the same interface+mask; multi-change / multi-interface change sets; close-on-end for every sequence length<=2 x {watch returns nil, watch fails}; all 256 rtnetlink operstate values through operStateChange/process; all batches of <=4 (thorough 5) messages over 3 interfaces x 3 operstates + malformed messages through process and the real notify to 4 subscribers per interface (masks any, up, down, any); oracle: delivery iff mask&change!=0 and names equal, in order, first 8 kept, notify returns (synctest quiescence), channels closed exactly when Watch returns; non-trivial = every case; distinct = distinct case"
+	r.Rule = "cases = all 127 masks x 7 changes x {same, other} interface; all change sequences of length<=3 over the 7 changes for 3 subscriber mask sets (incl. two subscribers sharing one mask); 0..12 undrained events with a slow and a drained subscriber on the same interface+mask; multi-change / multi-interface change sets; close-on-end for every sequence length<=2 x {watch returns nil, watch fails}, each followed by a Subscribe and a second Watch on the same Watcher (refused with the documented panic, or served correctly: never another panic); all 256 rtnetlink operstate values through operStateChange/process; all batches of <=4 (thorough 5) messages over 3 interfaces x 3 operstates + malformed messages through process and the real notify to 4 subscribers per interface (masks any, up, down, any); oracle: delivery iff mask&change!=0 and names equal, in order, first 8 kept, notify returns (synctest quiescence), channels closed exactly when Watch returns; non-trivial = every case; distinct = distinct case"
 	if r.Replay != nil {
 		var c c19Case
 		if err := json.Unmarshal(r.Replay, &c); err != nil {
